@@ -14,6 +14,8 @@ use arbitrary::{Arbitrary, Result, Unstructured};
 
 impl<'a, const BITS: usize, const LIMBS: usize> Arbitrary<'a> for Uint<BITS, LIMBS> {
     fn arbitrary(u: &mut Unstructured<'a>) -> Result<Self> {
+        #[cfg(feature = "recmo_uint_verif")]
+        crate::verif_hooks::hit(43);
         let mut limbs = [0; LIMBS];
         if let Some((last, rest)) = limbs.split_last_mut() {
             for limb in rest {
